@@ -112,8 +112,9 @@ func EngineLine(transLine int, c EngineCall) string {
 // PollCtx counts Err() polls; from poll number FailFrom (0-based) on it reports context.Canceled. FailFrom < 0 never fails.
 type PollCtx struct {
 	context.Context
-	FailFrom int
-	Polls    int
+	FailFrom   int
+	Polls      int
+	ByDeadline bool // report context.DeadlineExceeded (a context that ended by its deadline) instead of context.Canceled
 }
 
 func NewPollCtx(failFrom int) *PollCtx {
@@ -124,6 +125,9 @@ func (c *PollCtx) Err() error {
 	n := c.Polls
 	c.Polls++
 	if c.FailFrom >= 0 && n >= c.FailFrom {
+		if c.ByDeadline {
+			return context.DeadlineExceeded
+		}
 		return context.Canceled
 	}
 	return nil
